@@ -15,6 +15,7 @@ CONSTANTS
   CraftToks = {}
   MaxPresent = 2
   Calls = {"exchange"}
+  PumpPay = FALSE
   HealRounds = 0
   HealDt = 250
   Bound = 0
